@@ -116,41 +116,18 @@ def check_array_readers(run, rule):
         ok = len(cons) == 1 and cons[0].kind == "UINT"
         run.ob(rule, "IndexListItem::read:one-element-per-iteration", ok, g, g["line"],
                "one unsigned element read per iteration" if ok else "each iteration must read exactly one unsigned element (found %d)" % len(cons))
-    # Timestamp::read positional loop
+    # Timestamp::read positional loop: tabulated per position (0, 1, 2, 3), whatever control structure selects by position
     t = facts.fn("CDNS::Timestamp::read", rule=rule)
-    env = Env(t["body"])
-    loops = [s for s in ir.stmts(t["body"]) if s.get("k") == "For"]
-    ok = False
-    why = "expected `for (i = 0; i < length || indef; i++)` with a positional switch"
-    if len(loops) == 1:
-        lp = loops[0]
-        c = cond(lp["cond"], env)
-        body = ir.stmts(lp["body"])
-        parts = c[1:] if c[0] == "or" else [c]
-        has_indef = any(p[0] == "nz" and "indef" in str(p[1]) for p in parts)
-        has_len = any(p[0] == "cmp" and p[1] == "<" and "length" in p[3] for p in parts)
-        bok, bwhy = consumption.break_check_ok(body[0], [str(p[1]) for p in parts if p[0] == "nz"][0] if has_indef else "?", env) if body else (False, "")
-        sw = [s for s in body if s.get("k") == "Switch"]
-        cases_ok = False
-        if len(sw) == 1:
-            groups = consumption.case_groups(sw[0])
-            vals = []
-            cases_ok = True
-            for labels, stmts_, falls, line in groups:
-                cons = [x for s in stmts_ for x in consumption.consumes_in(s, facts)]
-                if any(l[0] == "default" for l in labels):
-                    if not any(ir.leaves_function(s) for s in stmts_):
-                        cases_ok = False
-                    continue
-                vals += [l[1] for l in labels if l[0] == "case"]
-                if len(cons) != 1 or cons[0].kind != "UINT" or falls:
-                    cases_ok = False
-            cases_ok = cases_ok and vals == [0, 1]
-        ok = has_indef and has_len and bok and cases_ok
-        if not ok:
-            why = "Timestamp::read: loop condition %s, break test ok=%s (%s), positional cases ok=%s" % (show_f(c), bok, bwhy, cases_ok)
-        else:
-            why = "positional array reader handles both length forms, reads one unsigned per position, rejects extra elements"
+    info, rows = consumption.positional_reader(t, facts)
+    if info is None:
+        ok, why = None, "Timestamp::read: %s" % rows
+    else:
+        want_rows = {0: [("member", "m_secs", "read_unsigned")], 1: [("member", "m_ticks", "read_unsigned")], 2: [("throw",)], 3: [("throw",)]}
+        bad = ["position %d: %s" % (p, rows[p]) for p in range(4) if rows[p] != want_rows[p]]
+        ok = info["break_ok"] and info["steps"] == 1 and not bad
+        why = "positional array reader handles both length forms, reads one unsigned per position, rejects extra elements" if ok else \
+            "Timestamp::read: loop condition %s, break test ok=%s (%s), position advanced %d time(s) per element, %s" % (
+                show_f(info["cond"]), info["break_ok"], info["break_why"], info["steps"], "; ".join(bad) or "positions ok")
     run.ob(rule, "Timestamp::read:positional-array", ok, t, t["line"], why)
 
 
@@ -244,6 +221,8 @@ def check(run):
     check_order_independence(run, "R08.2", analyses)
     # imported decoder obligations
     C07.check_skip(run, "R08.3", "R08.3")
+    from . import C03
+    C03.check_invalidation(run, "R08.3", run.facts, only_cls="CDNS::CdnsDecoder", floor=0)
     C07.check_stop_agreement(run, "R08.3")
     run.floors.pop("R08.3", None)
     run.floor("R08.3", 25, "imported decoder obligations")
